@@ -108,6 +108,79 @@ Proof.
     first [ by_hyp H00 | by_hyp H01 | by_hyp H10 | by_hyp H11 ].
 Qed.
 
+(* ---- composition into data_exact ---- *)
+(* the group sums read the standard's M and S values only (not the "known" flags) *)
+Lemma group_res_values (sd sd' : vstd K) x ts v : sd_m sd = sd_m sd' -> sd_s sd = sd_s sd' ->
+  group_res K ofq sd x ts v = group_res K ofq sd' x ts v.
+Proof.
+  intros Hm Hs. unfold group_res. f_equal. apply map_ext. intros t.
+  unfold term_res, term_coef. rewrite Hm, Hs. reflexivity.
+Qed.
+
+Lemma t8_2x2_wf conn szero r c : r < 2 -> c < 2 -> forall t i,
+  In t (build_terms_t8 2 2 r c conn szero) -> vt_x t = Some i -> i < 7.
+Proof.
+  intros Hr Hc t i. assert (Hrc : (r = 0 \/ r = 1) /\ (c = 0 \/ c = 1)) by lia.
+  destruct Hrc as ([-> | ->] & [-> | ->]); unfold build_terms_t8; cbn [seq flat_map app Nat.mul Nat.add Nat.eqb Nat.sub];
+    kill_bools conn szero; cbn [andb negb app In]; intros Hin Hx;
+    repeat (destruct Hin as [<- | Hin]; [cbn in Hx; inversion Hx; lia|]); destruct Hin.
+Qed.
+
+Lemma u8_2x2_wf conn szero r c : r < 2 -> c < 2 -> forall t i,
+  In t (build_terms_u8 2 2 r c conn szero) -> vt_x t = Some i -> i < 7.
+Proof.
+  intros Hr Hc t i. assert (Hrc : (r = 0 \/ r = 1) /\ (c = 0 \/ c = 1)) by lia.
+  destruct Hrc as ([-> | ->] & [-> | ->]); unfold build_terms_u8; cbn [seq flat_map app Nat.mul Nat.add Nat.eqb Nat.sub];
+    kill_bools conn szero; cbn [andb negb app In]; intros Hin Hx;
+    repeat (destruct Hin as [<- | Hin]; [cbn in Hx; inversion Hx; lia|]); destruct Hin.
+Qed.
+
+(* what it means for an equation of a problem to come from a 2-port standard of an error network *)
+Definition from_network_2x2 (build : nat -> nat -> nat -> nat -> (nat -> bool) -> (nat -> bool) -> list vterm)
+           (relation : nat -> list K -> list K -> list K -> Prop) (p : vprob K) (x : list K) (e : veq) : Prop :=
+  exists conn szero r c m0 m1 m2 m3 s0 s1 s2 s3,
+    r < 2 /\ c < 2 /\ ve_terms e = build 2 2 r c conn szero /\
+    sd_m (std_of K p e) = [m0; m1; m2; m3] /\ sd_s (std_of K p e) = [s0; s1; s2; s3] /\
+    (forall k, k < 4 -> szero k = true -> xg [s0; s1; s2; s3] k = c0) /\
+    relation 2 [m0; m1; m2; m3] [s0; s1; s2; s3] x.
+
+(* PHYSICAL EXACTNESS COMPOSED: a one-system problem with 7 unknowns all of whose equations are built by
+   build_terms_t8 (resp. _u8) from 2-port standards measured through an error network with terms x
+   satisfies data_exact for x -- the premise of the exact-data theorems *)
+Theorem t8_2x2_data_exact (p : vprob K) es ts0 ts1 ti0 ti1 tx0 tx1 tm1 :
+  let x := [ts0; ts1; ti0; ti1; tx0; tx1; tm1] in
+  vp_unknowns p = 7 -> vp_systems p = [es] ->
+  (forall e, In e es -> from_network_2x2 build_terms_t8 t8_relation p x e) ->
+  data_exact K ofq p [x].
+Proof.
+  intros x Hu Hs Hall s es' e Hes He. rewrite Hs in Hes.
+  destruct s as [|[|s]]; cbn in Hes; inversion Hes; subst es'. cbn [nth].
+  destruct (Hall e He) as (conn & szero & r & c & m0 & m1 & m2 & m3 & s0 & s1 & s2 & s3 & Hr & Hc & Ht & Hm & Hsd & Hz & Hrel).
+  split.
+  - intros t i Hin Hx. rewrite Hu. rewrite Ht in Hin. apply (t8_2x2_wf conn szero r c Hr Hc t i Hin Hx).
+  - intros v. rewrite Ht.
+    rewrite (group_res_values (std_of K p e) (Build_vstd K [m0; m1; m2; m3] [s0; s1; s2; s3] [true; true; true; true]))
+      by assumption.
+    apply (t8_2x2_exact conn szero m0 m1 m2 m3 s0 s1 s2 s3 ts0 ts1 ti0 ti1 tx0 tx1 tm1 Hz Hrel r c Hr Hc v).
+Qed.
+
+Theorem u8_2x2_data_exact (p : vprob K) es um1 ui0 ui1 ux0 ux1 us0 us1 :
+  let x := [um1; ui0; ui1; ux0; ux1; us0; us1] in
+  vp_unknowns p = 7 -> vp_systems p = [es] ->
+  (forall e, In e es -> from_network_2x2 build_terms_u8 u8_relation p x e) ->
+  data_exact K ofq p [x].
+Proof.
+  intros x Hu Hs Hall s es' e Hes He. rewrite Hs in Hes.
+  destruct s as [|[|s]]; cbn in Hes; inversion Hes; subst es'. cbn [nth].
+  destruct (Hall e He) as (conn & szero & r & c & m0 & m1 & m2 & m3 & s0 & s1 & s2 & s3 & Hr & Hc & Ht & Hm & Hsd & Hz & Hrel).
+  split.
+  - intros t i Hin Hx. rewrite Hu. rewrite Ht in Hin. apply (u8_2x2_wf conn szero r c Hr Hc t i Hin Hx).
+  - intros v. rewrite Ht.
+    rewrite (group_res_values (std_of K p e) (Build_vstd K [m0; m1; m2; m3] [s0; s1; s2; s3] [true; true; true; true]))
+      by assumption.
+    apply (u8_2x2_exact conn szero m0 m1 m2 m3 s0 s1 s2 s3 um1 ui0 ui1 ux0 ux1 us0 us1 Hz Hrel r c Hr Hc v).
+Qed.
+
 (* in the vocabulary of the exact-data theorems: an equation of a problem whose standard holds these
    values and whose term list is the one the library builds is exact for x *)
 Lemma eq_exact_of_groups (p : vprob K) (x : list K) (e : veq) (sd : vstd K) (ts : list vterm) :
